@@ -311,3 +311,70 @@ Proof.
   destruct (doc_eval_sound p e Hp v He Hv) as [Sv _].
   rewrite (doc_sem_functional p Hprime Hp e v v' He Sv Sv'). exact Kc.
 Qed.
+
+(* ---------- operands outside [0,p) ----------
+   The dispatch never passes one (dispatch_sound: every attached constant is
+   canonical).  Called directly, sixteen of the functions reduce their
+   operands themselves, so that their value on arbitrary integers is their
+   value on the residues; the other eight (div, pow, the complement, shifts
+   and bitwise operators) work on the integers as given. *)
+Definition reduces_operands (o : fop) : bool :=
+  match o with
+  | OAdd | OMul | OSub | OIDiv | OMod | ONeg | OAsBool | ONot | OOr | OAnd
+  | OEq | OLt | ONeq | OLe | OGt | OGe => true
+  | _ => false
+  end.
+
+Lemma modulus_mod a p : 0 < p -> modulus (a mod p) p = modulus a p.
+Proof. intros. rewrite !modulus_spec by lia. apply Z.mod_mod. lia. Qed.
+
+Lemma comparable_mod a p : 0 < p -> comparable_element (a mod p) p = comparable_element a p.
+Proof. intros. unfold comparable_element. rewrite modulus_mod by lia. reflexivity. Qed.
+
+Lemma normalize_mod a p : 0 < p -> normalize (a mod p) p = normalize a p.
+Proof. intros. unfold normalize. rewrite comparable_mod by lia. reflexivity. Qed.
+
+Lemma eq_mod a b p : 0 < p -> eq (a mod p) (b mod p) p = eq a b p.
+Proof. intros. unfold eq. rewrite !modulus_mod by lia. reflexivity. Qed.
+
+Lemma lesser_mod a b p : 0 < p -> lesser (a mod p) (b mod p) p = lesser a b p.
+Proof. intros. unfold lesser. rewrite !comparable_mod by lia. reflexivity. Qed.
+
+Lemma not_eq_mod a b p : 0 < p -> not_eq (a mod p) (b mod p) p = not_eq a b p.
+Proof. intros. unfold not_eq. rewrite eq_mod by lia. reflexivity. Qed.
+
+Lemma lesser_eq_mod a b p : 0 < p -> lesser_eq (a mod p) (b mod p) p = lesser_eq a b p.
+Proof. intros. unfold lesser_eq. rewrite eq_mod, lesser_mod by lia. reflexivity. Qed.
+
+Lemma greater_mod a b p : 0 < p -> greater (a mod p) (b mod p) p = greater a b p.
+Proof. intros. unfold greater. rewrite lesser_eq_mod by lia. reflexivity. Qed.
+
+Lemma greater_eq_mod a b p : 0 < p -> greater_eq (a mod p) (b mod p) p = greater_eq a b p.
+Proof. intros. unfold greater_eq. rewrite eq_mod, greater_mod by lia. reflexivity. Qed.
+
+Lemma bool_and_mod a b p : 0 < p -> bool_and (a mod p) (b mod p) p = bool_and a b p.
+Proof. intros. unfold bool_and. rewrite !normalize_mod by lia. reflexivity. Qed.
+
+Lemma bool_or_mod a b p : 0 < p -> bool_or (a mod p) (b mod p) p = bool_or a b p.
+Proof. intros. unfold bool_or. rewrite bool_and_mod, !normalize_mod by lia. reflexivity. Qed.
+
+Lemma idiv_mod a b p : 0 < p -> idiv (a mod p) (b mod p) p = idiv a b p.
+Proof. intros. unfold idiv. rewrite !modulus_mod by lia. reflexivity. Qed.
+
+Lemma mod_op_mod a b p : 0 < p -> mod_op (a mod p) (b mod p) p = mod_op a b p.
+Proof. intros. unfold mod_op. rewrite !modulus_mod by lia. reflexivity. Qed.
+
+Theorem eval_reduces_operands o a b p :
+  0 < p -> reduces_operands o = true -> eval o a b p = eval o (a mod p) (b mod p) p.
+Proof.
+  intros Hp Ho.
+  destruct o; try discriminate; cbn [eval];
+    rewrite ?idiv_mod, ?mod_op_mod, ?bool_or_mod, ?bool_and_mod, ?eq_mod, ?lesser_mod, ?not_eq_mod,
+            ?lesser_eq_mod, ?greater_mod, ?greater_eq_mod by lia; try reflexivity.
+  - unfold add. rewrite !modulus_spec by lia. f_equal. apply Zplus_mod.
+  - unfold mul. rewrite !modulus_spec by lia. f_equal. apply Zmult_mod.
+  - unfold sub. rewrite !modulus_spec by lia. f_equal. apply Zminus_mod.
+  - unfold prefix_sub, mul. rewrite !modulus_spec by lia. f_equal. symmetry. apply Zmult_mod_idemp_l.
+  - unfold as_bool. rewrite normalize_mod by lia. reflexivity.
+  - unfold not. rewrite normalize_mod by lia. reflexivity.
+Qed.
